@@ -257,7 +257,8 @@ func checkCmd(args []string) {
 		timeout = 60 * time.Second
 		cross = true
 	}
-	smtDir := filepath.Join(verifDir, "work", "smt", *prop)
+	// one directory per property and tier: a quick and a thorough run of the same property may overlap
+	smtDir := filepath.Join(verifDir, "work", "smt", *prop+"-"+*tier)
 	os.RemoveAll(smtDir)
 	os.MkdirAll(smtDir, 0o755)
 	res := runProperty(*prop, pc, *repo, nil, kf.Findings, timeout, cross, seed, smtDir)
